@@ -22,6 +22,9 @@ pub struct Case {
     /// bit7 a young (10 min) file that is a second hard link to an application file outside the cache (a value
     /// being staged by link rather than by copy)
     pub temps: u8,
+    /// the .kismet_temp directory itself was last modified two hours ago (nothing created or removed there since),
+    /// whatever the age of the files in it (a file created long ago and still being written is young)
+    pub temp_dir_idle: bool,
     pub capacity: usize,
     /// 0 plain set, 1 plain put, 2 sharded put, 3 sharded temp_dir(None), 4 stacked ensure (plain writer)
     pub via: u8,
@@ -29,13 +32,14 @@ pub struct Case {
 
 impl Case {
     pub fn to_json(&self) -> Value {
-        json!({"keys": self.keys, "foreign": self.foreign, "temps": self.temps, "capacity": self.capacity, "via": self.via})
+        json!({"keys": self.keys, "foreign": self.foreign, "temps": self.temps, "capacity": self.capacity, "via": self.via, "temp_dir_idle": self.temp_dir_idle})
     }
     pub fn from_json(v: &Value) -> Case {
         Case {
             keys: v["keys"].as_array().unwrap().iter().map(|x| x.as_u64().unwrap() as u8).collect(),
             foreign: v["foreign"].as_u64().unwrap() as u8,
             temps: v["temps"].as_u64().unwrap() as u8,
+            temp_dir_idle: v["temp_dir_idle"].as_bool().unwrap_or(false),
             capacity: v["capacity"].as_u64().unwrap() as usize,
             via: v["via"].as_u64().unwrap() as u8,
         }
@@ -109,6 +113,9 @@ fn materialise(dir: &Path, case: &Case, now: i128) {
             let m = now - 2 * LIMIT;
             let a = if case.keys[0] == 1 { m + 5 * SEC } else { m - 120 * SEC };
             world::set_times(&dir.join("k00"), a, m);
+        }
+        if case.temp_dir_idle {
+            world::set_times(&tdir, now - 2 * LIMIT, now - 2 * LIMIT);
         }
     }
 }
@@ -292,7 +299,7 @@ pub fn run(tier: Tier, shard: Shard, rep: &mut Report) {
     rep.rule = format!(
         "directory populations: every sequence of n <= {} key-named files over {{old unread, old read, new unread}} x \
          {} subsets of foreign objects (.app old, .app2 new, .appdir/, sub/, key-like directory) x {} subsets of \
-         .kismet_temp contents (ages limit-10s, limit-1s, exactly limit, limit+1s, limit+1h, old subdirectory, young second hard link to an application file, old hard \
+         .kismet_temp contents (ages limit-10s, limit-1s, exactly limit, limit+1s, limit+1h, old subdirectory, young second hard link, and the .kismet_temp directory itself idle for two hours or not to an application file, old hard \
          link to a published entry) x capacity 0..=n+1 x maintenance forced through plain set, plain put, sharded put, \
          sharded temp_dir, stacked ensure. Non-trivial = a foreign object or a temp file with a decided fate is present.",
         max_n,
@@ -330,8 +337,14 @@ pub fn run(tier: Tier, shard: Shard, rep: &mut Report) {
                             if !shard.mine(no) {
                                 continue;
                             }
-                            let case = Case { keys: keys.clone(), foreign, temps, capacity, via };
+                            let case = Case { keys: keys.clone(), foreign, temps, capacity, via, temp_dir_idle: false };
                             record(&case, rep);
+                            if temps & 0b1000_0011 != 0 && foreign % 8 == 0 {
+                                let mut idle = case.clone();
+                                idle.temp_dir_idle = true;
+                                record(&idle, rep);
+                                rep.count("idle_temp_dir_cases", 1);
+                            }
                             if no % 40009 == 0 {
                                 rep.sample(case.to_json());
                             }
@@ -343,7 +356,7 @@ pub fn run(tier: Tier, shard: Shard, rep: &mut Report) {
     }
     rep.fact("max_n", json!(max_n));
     if shard.index == 0 {
-        rep.sample(Case { keys: vec![2, 2], foreign: 1, temps: 0b11011, capacity: 1, via: 1 }.to_json());
+        rep.sample(Case { keys: vec![2, 2], foreign: 1, temps: 0b11011, capacity: 1, via: 1, temp_dir_idle: false }.to_json());
     }
 }
 
